@@ -157,3 +157,18 @@ func init() {
 		absSigs:    map[string]string{"isPrint": "Int → Bool", "isSpace": "Int → Bool"},
 	})
 }
+
+func init() {
+	g2lUnits = append(g2lUnits, &g2lUnit{
+		out: "FnPrint", ns: "Print", pkgDir: "modfile",
+		imports:     []string{"ModVerif.Basic.GoRtUtf8", "ModVerif.Basic.GoRtStrings"},
+		structNames: []string{"Position", "Comment", "Comments", "CommentBlock", "LParen", "RParen", "Line", "LineBlock", "Expr", "FileSyntax", "printer"},
+		sumTypes:    map[string][]string{"Expr": {"CommentBlock", "LParen", "RParen", "Line", "LineBlock"}},
+		embedGet:    map[string]string{"Comment": "Comments"},
+		printfTo:    map[string]string{"printer.printf": "Buffer"},
+		noEq:        map[string]bool{"LineBlock": true, "FileSyntax": true, "Line": true, "CommentBlock": true, "LParen": true, "RParen": true, "Comments": true, "printer": true},
+		fns:         []string{"Format", "printer.indent", "printer.newline", "printer.trim", "printer.file", "printer.expr", "printer.tokens"},
+		inout: map[string]string{"printer.newline": "p", "printer.trim": "p", "printer.file": "p", "printer.expr": "p", "printer.tokens": "p"},
+		exclude: map[string]bool{"printf": true},
+	})
+}
